@@ -64,6 +64,30 @@ package proxy
 //   * a spec rejected by ServerPoolSpec.Validate is not run (the property is
 //     about accepted pools); Validate's own verdict is not judged.
 //
+// Extensions (second round):
+//   * optional Retry policy on the pool (resilience.NewPolicy +
+//     InjectResiliencePolicy); the transport stub fails the first op.Fails calls
+//     of a request. Every transport call is one selection and is judged against
+//     the generations current during THAT attempt: the first attempt begins with
+//     the request, a retry attempt begins after the previous transport call
+//     returned and not before half the configured waitDuration has passed since
+//     (doc: waitDuration is the wait between attempts). A request that was never
+//     forwarded under a retry policy is judged against the lists current during
+//     its last attempt (not before (maxAttempts-1) half-waits after its start).
+//     Final outcomes after a scripted transport failure are C10's business and
+//     only checked for consistency (last transport call ok <=> success).
+//   * watcher mode: the pool is created with serviceRegistry set, so the real
+//     watchServers start-up and goroutine run against the real
+//     serviceregistry.ServiceRegistry with a fake registry driver (c04Registry).
+//     Updater tasks send notifications, singly or in back-to-back bursts; each
+//     ListServiceInstances call made for a notification is one discovery report
+//     (= one generation, applied in report order by the pool's goroutine). When
+//     a report took effect is only known at harness-proven quiescence (virtual
+//     time passed without any scheduler stall => every goroutine was blocked
+//     with empty queues): until then all reports of a burst stay candidates.
+//   * after the tasks, at quiescence, two more requests are issued: only the
+//     generation LAST reported/installed is a candidate for them.
+//
 // Determinism note: useService ranges over the instances map, so the order of
 // a discovered list (and with it *which* member a given counter value / hash /
 // random draw maps to) is not reproducible. No recorded event and no rule
@@ -561,7 +585,7 @@ type c04Registry struct {
 	onList  func(insts []c04Inst)
 }
 
-func (f *c04Registry) Name() string                                   { return "c04reg" }
+func (f *c04Registry) Name() string                                  { return "c04reg" }
 func (f *c04Registry) Notify() <-chan *serviceregistry.RegistryEvent { return f.notify }
 func (f *c04Registry) ApplyServiceInstances(map[string]*serviceregistry.ServiceInstanceSpec) error {
 	return nil
@@ -1389,15 +1413,18 @@ func TestVerifC04(t *testing.T) {
 		MaxSteps: 30000,
 		Rule: "scenario = drawn policy (5 policies + omitted), static list of 0-8 servers (weights all zero / equal / distinct), 0-4 discovery updates (0-8 instances, tagged or not, weights incl. zero, addresses fresh or shared between versions) issued by 1-2 updater tasks, " +
 			"and 1-6 selector tasks issuing 4-200 requests (client IP by RemoteAddr/X-Real-Ip/X-Forwarded-For, hash header, mirror flag, hold inside the transport); " +
-			"non-trivial = a policy rule was really exercised (roundRobin fairness on a list of >=2 servers with k>=n, a repeated hash key on >=2 servers, a weighted choice with a zero-weight member, a no-server failure on an empty list, or two generations that both served requests); " +
+			"25% of the scenarios put a Retry policy (2-4 attempts, 1-20 ms wait) on the pool and script 1..max failing transport calls per request with list replacements landing between attempts; 35% of the discovery scenarios feed the instance maps through the real ServiceRegistry and the pool's own watchServers goroutine in bursts of back-to-back notifications; two requests are issued after quiescence; " +
+			"non-trivial = a policy rule was really exercised (a retry attempt forwarded after a list replacement, roundRobin fairness on a list of >=2 servers with k>=n, a repeated hash key on >=2 servers, a weighted choice with a zero-weight member, a no-server failure on an empty list, or two generations that both served requests); " +
 			"distinct = distinct (policy, generation shapes, start/end/outcome event order) signatures",
-		Real: []string{"pkg/filters/proxy ServerPool (NewServerPool, createLoadBalancer, useService, handle, doHandle, handleMirror, buildResponse)", "pkg/filters/proxy five LoadBalancer implementations + NewLoadBalancer", "ServerPoolSpec.Validate", "pkg/context, pkg/protocols/httpprot request/response objects"},
-		Stub: []string{"transport: fnSendRequest replaced by a recorder that answers 200 with an empty body", "service registry watcher: updater tasks call sp.useService directly", "sync/atomic -> simatomic, math/rand -> simrand (same semantics + gates / taped draws)"},
+		Real: []string{"pkg/filters/proxy ServerPool (NewServerPool, createLoadBalancer, useService, handle, doHandle, handleMirror, buildResponse)", "pkg/filters/proxy five LoadBalancer implementations + NewLoadBalancer", "ServerPoolSpec.Validate", "ServerPool.watchServers + its goroutine, InjectResiliencePolicy", "pkg/resilience RetryPolicy (NewPolicy, Wrap)", "pkg/object/serviceregistry ServiceRegistry (RegisterRegistry, watchRegistry, NewServiceWatcher, event dispatch)", "pkg/context, pkg/protocols/httpprot request/response objects"},
+		Stub: []string{"transport: fnSendRequest replaced by a recorder that answers 200 with an empty body", "direct mode: updater tasks call sp.useService themselves; watcher mode: a fake registry driver (c04Registry) behind the real ServiceRegistry, supervisor mock holding it", "retry.go time.After -> simtime (timeshim)", "sync/atomic -> simatomic, math/rand -> simrand (same semantics + gates / taped draws)"},
 		Assumptions: []string{
 			"a request overlapping a list replacement may be served from the old or the new list; overlapping useService calls may take effect in either order",
 			"fairness is evaluated per balancer generation at instants with no selection between handle() entry and the transport call, requests that may belong to two generations count as optional for both",
 			"equal ipHash key = equal (remote IP, X-Real-Ip, X-Forwarded-For) triple; equal headerHash key = equal value of the configured header; no spread/distribution requirement is asserted",
 			"static servers carry a tag matching serverTags; serverTags non-empty whenever discovery is used; URLs unique within a list; weights >= 0; specs rejected by Validate are not run",
+			"a retry attempt begins after the previous transport call returned and not before half the configured waitDuration later; on persistent failure the reported failure is the last of maxAttempts attempts",
+			"watcher mode: reports take effect in report order; a report is known to be in force only after virtual time passed without scheduler stalls (all goroutines idle); a fake registry shows its k-th state to the k-th listing made for a notification",
 			"the order of a discovered list depends on Go map iteration in useService; no event or rule depends on it",
 		},
 	})
